@@ -48,6 +48,10 @@ func main() {
 		fmt.Fprintln(os.Stderr, "govc: engine error:", err)
 		os.Exit(2)
 	}
+	if err := w.dumpTables(); err != nil {
+		fmt.Fprintln(os.Stderr, "govc: engine error:", err)
+		os.Exit(2)
+	}
 	if *dumpfn != "" {
 		if f := w.AllFns[*dumpfn]; f != nil {
 			f.WriteTo(os.Stdout)
